@@ -77,7 +77,7 @@ def truthy(v: Val):
     if isinstance(t, T.Set):
         return v.term != z3.K(t.elem.sort(), z3.BoolVal(False))
     if isinstance(t, T.Dict):
-        return z3.Length(t.sort().keys(v.term)) != 0
+        return t.sort().dom(v.term) != z3.K(t.k.sort(), z3.BoolVal(False))
     if isinstance(t, T.Opt):
         s = t.sort()
         inner = truthy(Val(t.inner, s.val(v.term)))
@@ -371,7 +371,9 @@ def contains(c: Val, x: Val, node=None):
     if isinstance(t, T.Dict):
         return z3.Select(t.sort().dom(lift(c)), lift(x, t.k))
     if isinstance(t, T.List):
-        return z3.Contains(lift(c), z3.Unit(lift(x, t.elem)))
+        from .core import seq_contains_elem
+
+        return seq_contains_elem(lift(c), lift(x, t.elem))
     if t == T.STR:
         return z3.Contains(lift(c), lift(x, T.STR))
     if isinstance(t, T.Opt):
@@ -396,6 +398,9 @@ def ite(c, a: Val, b: Val) -> Val:
     if isinstance(c, bool):
         return a if c else b
     j = join_types(a.ty, b.ty)
+    if j is None and a.is_py and b.is_py and isinstance(a.py, (tuple, list)) and type(a.py) is type(b.py) and len(a.py) == len(b.py):
+        items = [ite(c, x if isinstance(x, Val) else Val.const(x), y if isinstance(y, Val) else Val.const(y)) for x, y in zip(a.py, b.py)]
+        return Val(PYOBJ, None, type(a.py)(items), True)
     if j is None:
         if a.ty is PYOBJ and b.ty is not PYOBJ:
             j = b.ty
